@@ -444,7 +444,7 @@ def check_C06(ctx):
              "distinct = transaction shapes and output shapes")
 def check_C07(ctx):
     ctx.assumptions += _BUILDER_ASSUME
-    builder_family(ctx, n_random=20000 if ctx.thorough else 1500, mc_sample=None if ctx.thorough else 1200, corrupt=_corrupt_cpb)
+    builder_family(ctx, n_random=20000 if ctx.thorough else 1500, mc_sample=None if ctx.thorough else 1200, n_plutus=6000 if ctx.thorough else 700, corrupt=_corrupt_cpb)
 
 
 def _corrupt_collateral(recs, rnd):
